@@ -193,6 +193,22 @@ func (w *realWorld) waitDone(id uuid.UUID, limit time.Duration) (jobView, bool) 
 	}
 }
 
+// waitReported waits until the job is reported finished in the sense of the statements: completed or canceled
+// (for a started job the unchanged runner sets both at the same moment, when its last task has ended).
+func (w *realWorld) waitReported(id uuid.UUID, limit time.Duration) (jobView, bool) {
+	deadline := time.Now().Add(limit)
+	for {
+		v, ok := w.view(id)
+		if ok && (v.Completed || v.Canceled) {
+			return v, true
+		}
+		if time.Now().After(deadline) {
+			return v, false
+		}
+		time.Sleep(2 * time.Millisecond)
+	}
+}
+
 func (w *realWorld) readLog(id uuid.UUID, taskName, stream string) ([]byte, error) {
 	rc, err := w.out.Reader(id.String(), taskName, stream)
 	if err != nil {
